@@ -13,6 +13,7 @@ void h_configure(HConfig &cfg) {
 void h_run(Case &c) {
   Draw &d = c.head;
   SpecOpts so; so.syn.max_pus = 64; so.gen_flags = false; TopoSpec sp = gen_topospec(d, so);
+  if (d.chance(1, 3)) sp.filters[HWLOC_OBJ_MEMCACHE] = HWLOC_TYPE_FILTER_KEEP_ALL;
   if (sp.is_xml && d.chance(1, 2)) sp.filters[HWLOC_OBJ_PCI_DEVICE] = sp.filters[HWLOC_OBJ_OS_DEVICE] = sp.filters[HWLOC_OBJ_BRIDGE] = HWLOC_TYPE_FILTER_KEEP_ALL;
   c.desc(sp.text()); hwloc_topology_t t; hwloc_topology_init(&t);
   if (apply_spec_and_load(c, t, sp) < 0) { hwloc_topology_destroy(t); c.discard(); }
@@ -154,7 +155,9 @@ void h_run(Case &c) {
     errno = 0; CHECK(c, hwloc_get_pcidev_by_busidstring(t, "zz:1") == NULL && errno == EINVAL, "pci_busid", "malformed bus id string accepted"); }
   // hwloc_distrib
   for (int q = 0; q < 20; q++) { std::vector<hwloc_obj_t> roots; int rm = d.range(0, 3);
-    if (rm == 0) roots.push_back(root); else { int dp = d.range(0, topodepth - 1); for (unsigned i = 0; i < hwloc_get_nbobjs_by_depth(t, dp); i++) if (d.chance(2, 3)) roots.push_back(hwloc_get_obj_by_depth(t, dp, i)); if (roots.empty()) roots.push_back(hwloc_get_obj_by_depth(t, dp, 0)); }
+    if (rm == 0) roots.push_back(root); else if (rm == 3 && d.chance(2, 3)) {   // memory objects as roots (they have a CPU set): NUMA nodes, or memory-side caches when the topology kept them
+      int md = (hwloc_get_nbobjs_by_depth(t, HWLOC_TYPE_DEPTH_MEMCACHE) > 0 && d.chance(1, 2)) ? HWLOC_TYPE_DEPTH_MEMCACHE : HWLOC_TYPE_DEPTH_NUMANODE;
+      for (unsigned i = 0; i < hwloc_get_nbobjs_by_depth(t, md); i++) if (d.chance(2, 3)) roots.push_back(hwloc_get_obj_by_depth(t, md, i)); if (roots.empty()) roots.push_back(hwloc_get_obj_by_depth(t, md, 0)); c.cls("distrib:memory-roots"); } else { int dp = d.range(0, topodepth - 1); for (unsigned i = 0; i < hwloc_get_nbobjs_by_depth(t, dp); i++) if (d.chance(2, 3)) roots.push_back(hwloc_get_obj_by_depth(t, dp, i)); if (roots.empty()) roots.push_back(hwloc_get_obj_by_depth(t, dp, 0)); }
     USet U; unsigned tw = 0; for (auto r : roots) { U.insert(CS[r].begin(), CS[r].end()); tw += CS[r].size(); } if (tw == 0) continue;   // documented precondition: roots have a CPU set
     unsigned nn = d.range(1, 2 * std::max(1u, tw) + 2); int until = d.chance(2, 3) ? INT_MAX : d.range(0, topodepth); unsigned long fl = d.chance(1, 4) ? HWLOC_DISTRIB_FLAG_REVERSE : 0; std::vector<hwloc_cpuset_t> sets(nn + 1, (hwloc_cpuset_t)0x1);
     c.attempt(strf("hwloc_distrib(%zu roots, n=%u, until=%d, flags=%lu)", roots.size(), nn, until, fl)); int r = hwloc_distrib(t, roots.data(), (unsigned)roots.size(), sets.data(), nn, until, fl);
